@@ -43,6 +43,7 @@ func cmdRun(args []string) int {
 	maxsteps := fs.Int("maxsteps", 0, "instruction budget per path")
 	nomerge := fs.Bool("nomerge", false, "disable if-conversion of pure branch regions")
 	rev := fs.Bool("reverse-maps", false, "iterate maps in reverse insertion order")
+	maxsecs := fs.Int("maxsecs", 300, "wall-clock budget (seconds)")
 	fs.Parse(args)
 	t0 := time.Now()
 	p, err := exec.Load(*repo, *pkg, *hdir)
@@ -67,7 +68,8 @@ func cmdRun(args []string) int {
 		fmt.Fprintln(os.Stderr, "no such harness", *harness)
 		return 2
 	}
-	x := &exec.Explorer{P: p, Harness: h, NWorker: *workers, Solver: *solver, Timeout: *timeout, Tier: *tier, Trace: *trace, MaxStep: *maxsteps, Reverse: *rev, NoMerge: *nomerge}
+	x := &exec.Explorer{P: p, Harness: h, NWorker: *workers, Solver: *solver, Timeout: *timeout, Tier: *tier, Trace: *trace, MaxStep: *maxsteps, Reverse: *rev, NoMerge: *nomerge, Progress: true}
+	x.Deadline = time.Now().Add(time.Duration(*maxsecs) * time.Second)
 	t1 := time.Now()
 	st, err := x.Run()
 	if err != nil {
